@@ -7,6 +7,7 @@ import (
 	"errors"
 	"io"
 	"net/http"
+	"os"
 	"time"
 
 	"github.com/containerd/containerd/v2/core/remotes/docker"
@@ -165,6 +166,10 @@ func Hosts(reg *simreg.Registry, timeout time.Duration, header http.Header, plai
 
 func init() {
 	// several thousand simulated daemons per process: no log output
+	if os.Getenv("VERIF_LOGS") != "" {
+		logrus.SetLevel(logrus.DebugLevel) // debugging aid for replays
+		return
+	}
 	logrus.SetOutput(io.Discard)
 	logrus.SetLevel(logrus.PanicLevel)
 }
